@@ -1,11 +1,213 @@
 (* C15 — shapes have value semantics: equality, hashing, copy and pickle agree.
-   This file holds only statements closed by [exact] and their Print Assumptions. *)
-From GV Require Import Prelude ValueM ValueP.
+   This file holds only statements closed by [exact] and their Print Assumptions.
+   [curve] (bounding coordinates of curved holes) is universally quantified everywhere.
+   wf_shape: every stored polygon outline (also of polygon holes and members) is closed and has
+   >= 2 entries, which GeoPolygon.__init__ establishes for every ring (C15_mk_outline_ok). *)
+From Coq Require Import Permutation.
+From GV Require Import Prelude ValueM ValueP ValueP2 ValueP3.
 Open Scope Z_scope.
 
-(* the rotation search of GeoPolygon.__eq__ decides "same open ring up to start vertex and winding" *)
+(* ---- equal shapes hash equally (every kind; multi-shapes through the set of member keys) *)
+Theorem C15_eq_hkey : forall curve a b, wf_shape a -> wf_shape b ->
+  shape_eqb curve a b = true -> key_eqv (hkey a) (hkey b) = true.
+Proof. exact eq_hkey. Qed.
+Print Assumptions C15_eq_hkey.
+
+(* ---- equality is an equivalence *)
+Theorem C15_eqb_refl : forall curve s, wf_shape s -> shape_eqb curve s s = true.
+Proof. exact shape_eqb_refl. Qed.
+Print Assumptions C15_eqb_refl.
+
+Theorem C15_eqb_sym : forall curve a b, wf_shape a -> wf_shape b ->
+  shape_eqb curve a b = true -> shape_eqb curve b a = true.
+Proof. exact shape_eqb_sym. Qed.
+Print Assumptions C15_eqb_sym.
+
+Theorem C15_eqb_trans : forall curve a b c, wf_shape a -> wf_shape b -> wf_shape c ->
+  shape_eqb curve a b = true -> shape_eqb curve b c = true -> shape_eqb curve a c = true.
+Proof. exact shape_eqb_trans. Qed.
+Print Assumptions C15_eqb_trans.
+
+(* why the outline hypothesis is there: a one-entry outline is unequal to itself (the rotation loop
+   runs len-1 = 0 times).  Outside the property's domain (not a ring); kept as a witness. *)
+Theorem C15_eqb_refl_unrestricted_refuted :
+  exists s, shape_eqb (fun _ => []) s s = false.
+Proof. exists (One (SArea (GPoly [(1, 1, None)]) [] None)). reflexivity. Qed.
+Print Assumptions C15_eqb_refl_unrestricted_refuted.
+
+(* ---- the rotation search of GeoPolygon.__eq__ decides "same open ring up to start and winding" *)
 Theorem C15_outline_eqb_spec : forall so oo,
   outline_eqb so oo = true <->
   (length so = length oo /\ removelast oo <> [] /\ Cyc (removelast so) (removelast oo)).
 Proof. exact outline_eqb_spec. Qed.
 Print Assumptions C15_outline_eqb_spec.
+
+(* ---- the constructor: stores a closed ring; the closing point may be omitted *)
+Theorem C15_mk_outline_ok : forall b r, r <> [] -> ring_ok (mk_outline b (cl r)).
+Proof. exact mk_outline_ok. Qed.
+Print Assumptions C15_mk_outline_ok.
+
+Theorem C15_mk_outline_unclosed : forall b r, hd dflt r <> last r dflt ->
+  mk_outline b r = mk_outline b (cl r).
+Proof. exact mk_outline_unclosed. Qed.
+Print Assumptions C15_mk_outline_unclosed.
+
+(* ---- a polygon equals itself re-written from any start vertex / in the opposite winding, for
+   the outline and every hole outline at once.  Hole rings need non-zero signed area (psum). *)
+Theorem C15_poly_eq_rot_rev : forall curve r r' hs hs' d,
+  r <> [] -> Cyc r' r -> Forall2 hole_rewrite hs' hs ->
+  exists p p', mk_poly (cl r) hs d = Ok p /\ mk_poly (cl r') hs' d = Ok p' /\
+               single_eqb curve p' p = true /\ single_eqb curve p p' = true.
+Proof. exact poly_eq_rot_rev. Qed.
+Print Assumptions C15_poly_eq_rot_rev.
+
+(* the stored hole outline has the same directed edges however the ring was written *)
+Theorem C15_hole_edges_rot_rev : forall b q q', q <> [] -> psum (cl q) <> 0 -> Cyc q' q ->
+  Permutation (dedges (mk_outline b (cl q'))) (dedges (mk_outline b (cl q))).
+Proof. exact hole_edges_rot_rev. Qed.
+Print Assumptions C15_hole_edges_rot_rev.
+
+Theorem C15_poly_eq_holes_perm : forall curve o hs hs' d, ring_ok o -> Permutation hs hs' ->
+  single_eqb curve (SArea (GPoly o) hs d) (SArea (GPoly o) hs' d) = true.
+Proof. exact poly_eq_holes_perm. Qed.
+Print Assumptions C15_poly_eq_holes_perm.
+
+(* ---- multi-shapes: set(...) == set(...) is mutual inclusion of the members; reordering is free *)
+Theorem C15_multi_eqb_spec : forall curve k1 m1 d1 k2 m2 d2,
+  Forall wf_single m1 -> Forall wf_single m2 ->
+  (shape_eqb curve (Multi k1 m1 d1) (Multi k2 m2 d2) = true <->
+   members_incl curve m1 m2 /\ members_incl curve m2 m1 /\ d1 = d2).
+Proof. exact multi_eqb_spec. Qed.
+Print Assumptions C15_multi_eqb_spec.
+
+Theorem C15_multi_eq_perm : forall curve k ms ms' d, Forall wf_single ms -> Permutation ms ms' ->
+  shape_eqb curve (Multi k ms d) (Multi k ms' d) = true.
+Proof. exact multi_eq_perm. Qed.
+Print Assumptions C15_multi_eq_perm.
+
+(* ---- what equality pins down (sound and complete), and its contrapositives *)
+Theorem C15_eq_sound : forall curve a b, single_eqb curve a b = true <-> same_single curve a b.
+Proof. exact single_eqb_spec. Qed.
+Print Assumptions C15_eq_sound.
+
+Theorem C15_neq_dt : forall curve s d d', d <> d' ->
+  shape_eqb curve (with_dt s d) (with_dt s d') = false.
+Proof. exact with_dt_neq. Qed.
+Print Assumptions C15_neq_dt.
+
+Theorem C15_neq_vertex : forall curve o o' hs hs' d d' x,
+  In x (removelast o) -> ~ In x (removelast o') ->
+  single_eqb curve (SArea (GPoly o) hs d) (SArea (GPoly o') hs' d') = false.
+Proof. exact poly_neq_vertex. Qed.
+Print Assumptions C15_neq_vertex.
+
+(* ---- copy() and the pickle round trip: equal values ... *)
+Theorem C15_copy_eq : forall curve s, wf_shape s ->
+  shape_eqb curve (copy_val s) s = true /\ shape_eqb curve s (copy_val s) = true.
+Proof. exact copy_eq. Qed.
+Print Assumptions C15_copy_eq.
+
+Theorem C15_copy_wf : forall s, wf_shape s -> wf_shape (copy_val s).
+Proof. exact copy_wf. Qed.
+Print Assumptions C15_copy_wf.
+
+Theorem C15_pickle_eq : forall curve s, wf_shape s ->
+  pickle_val s = s /\ shape_eqb curve (pickle_val s) s = true /\ shape_eqb curve s (pickle_val s) = true.
+Proof. exact pickle_eq. Qed.
+Print Assumptions C15_pickle_eq.
+
+(* ---- ... in new cells: object, _properties, nested containers, dt (members' too) *)
+Theorem C15_copy_fresh : forall n o, below n (all_locs o) ->
+  let o' := fst (copy_obj n o) in
+  atleast n (own_locs o') /\ (forall l, In l (own_locs o') -> ~ In l (all_locs o)).
+Proof. exact copy_fresh. Qed.
+Print Assumptions C15_copy_fresh.
+
+(* copy() keeps the very same hole objects (holes=self.holes.copy()): stated, not hidden *)
+Theorem C15_copy_shares_holes : forall n o, hole_locs (fst (copy_obj n o)) = hole_locs o.
+Proof. exact copy_shares_holes. Qed.
+Print Assumptions C15_copy_shares_holes.
+
+Theorem C15_pickle_fresh : forall n o, below n (all_locs o) ->
+  let o' := fst (pickle_obj n o) in
+  atleast n (all_locs o') /\ (forall l, In l (all_locs o') -> ~ In l (all_locs o)).
+Proof. exact pickle_fresh. Qed.
+Print Assumptions C15_pickle_fresh.
+
+(* writing to any own cell of the copy / any cell of the unpickled object is invisible in the original *)
+Theorem C15_copy_isolated : forall V (h : store V) n o l v, below n (all_locs o) ->
+  In l (own_locs (fst (copy_obj n o))) -> view V (upd V h l v) o = view V h o.
+Proof. exact copy_isolated. Qed.
+Print Assumptions C15_copy_isolated.
+
+Theorem C15_pickle_isolated : forall V (h : store V) n o l v, below n (all_locs o) ->
+  In l (all_locs (fst (pickle_obj n o))) -> view V (upd V h l v) o = view V h o.
+Proof. exact pickle_isolated. Qed.
+Print Assumptions C15_pickle_isolated.
+
+(* ------------------------------------------------------------------ non-vacuity *)
+Definition p00 : coord := (0, 0, None).
+Definition p40 : coord := (4, 0, None).
+Definition p44 : coord := (4, 4, None).
+Definition p04 : coord := (0, 4, None).
+Definition sq : list coord := [p00; p40; p44; p04].
+Definition sq' : list coord := [p44; p40; p00; p04].           (* other start, other winding *)
+Definition tri : list coord := [(1, 1, None); (2, 1, None); (1, 2, None)].
+Definition tri' : list coord := [(1, 2, None); (2, 1, None); (1, 1, None)].
+Definition nocurve : geom -> list coord := fun _ => [].
+
+Lemma ring_ok_dec o : (2 <=? length o)%nat && coord_eqb (hd dflt o) (last o dflt) = true -> ring_ok o.
+Proof.
+  intro H. apply andb_true_iff in H as [H1 H2]. apply Nat.leb_le in H1. apply coord_eqb_eq in H2.
+  split; assumption.
+Qed.
+
+Example C15_nonvacuous_eq_hkey :
+  let a := One (SArea (GPoly (cl sq)) [mkhole (GPoly (mk_outline false (cl tri))) None] (Some (0, 5))) in
+  let b := One (SArea (GPoly (cl sq')) [mkhole (GPoly (mk_outline false (cl tri'))) None] (Some (0, 5))) in
+  wf_shape a /\ wf_shape b /\ a <> b /\ shape_eqb nocurve a b = true /\ key_eqv (hkey a) (hkey b) = true.
+Proof.
+  cbn zeta. split; [|split].
+  - split; [apply ring_ok_dec; reflexivity|]. constructor; [|constructor]. apply ring_ok_dec. reflexivity.
+  - split; [apply ring_ok_dec; reflexivity|]. constructor; [|constructor]. apply ring_ok_dec. reflexivity.
+  - split; [discriminate|]. split; vm_compute; reflexivity.
+Qed.
+
+Example C15_nonvacuous_rot_rev :
+  sq <> [] /\ Cyc sq' sq /\ sq' <> sq /\
+  Forall2 hole_rewrite [mkhole (GPoly (mk_outline false (cl tri'))) None]
+                       [mkhole (GPoly (mk_outline false (cl tri))) None].
+Proof.
+  split; [discriminate|]. split; [|split; [discriminate|]].
+  - right. exists [p04], [p44; p40; p00]. split; reflexivity.
+  - constructor; [|constructor]. right. exists tri, tri'. split; [discriminate|]. split; [vm_compute; discriminate|].
+    split; [|split; reflexivity]. right. exists [], (rev tri). split; reflexivity.
+Qed.
+
+Example C15_nonvacuous_multi :
+  let ms := [SPoint p00 None; SPoint p44 (Some (1, 1)); SPoint p40 None] in
+  let ms' := [SPoint p40 None; SPoint p00 None; SPoint p44 (Some (1, 1))] in
+  Forall wf_single ms /\ Permutation ms ms' /\ ms <> ms'.
+Proof.
+  cbn zeta. split; [repeat constructor|]. split; [|discriminate].
+  apply Permutation_sym. apply perm_trans with (SPoint p00 None :: SPoint p40 None :: [SPoint p44 (Some (1, 1))]).
+  - apply perm_swap.
+  - apply perm_skip. apply perm_swap.
+Qed.
+
+Example C15_nonvacuous_copy :
+  let o := OM (mkmobj (mkoc 0 1 [2] (Some 3)) [mksobj (mkoc 4 5 [] (Some 6)) [mkoc 7 8 [] None]]) in
+  below 9 (all_locs o) /\
+  fst (copy_obj 9 o) = OM (mkmobj (mkoc 12 13 [14] (Some 15)) [mksobj (mkoc 9 10 [] (Some 11)) [mkoc 7 8 [] None]]) /\
+  fst (pickle_obj 9 o) = OM (mkmobj (mkoc 9 10 [11] (Some 12)) [mksobj (mkoc 13 14 [] (Some 15)) [mkoc 16 17 [] None]]).
+Proof.
+  cbn zeta. split; [|split; reflexivity].
+  intros l H. cbn in H. repeat (destruct H as [<-|H]; [lia|]). destruct H.
+Qed.
+
+Example C15_nonvacuous_neq :
+  with_dt (One (SPoint p00 None)) (Some (0, 1)) <> with_dt (One (SPoint p00 None)) None /\
+  In p44 (removelast (cl sq)) /\ ~ In p44 (removelast (cl tri)).
+Proof.
+  split; [discriminate|]. split; [cbn; tauto|]. cbn. intros [H|[H|[H|[]]]]; discriminate.
+Qed.
